@@ -53,6 +53,7 @@ class Entry:
         self.callrewrite = []  # (method, function path, tag)
         self.sigsubst = []
         self.tryexpand = []
+        self.selfparam = None
         self.nocanary = None
         self.rename = None
 
@@ -95,6 +96,8 @@ def parse_vc(path):
                     cur.rename = rest
                 elif word == "nocanary":
                     cur.nocanary = rest or "unspecified"
+                elif word == "selfparam":
+                    cur.selfparam = rest.strip() or "this"
                 elif word == "tryexpand":
                     m = re.match(r'"(.*)"\s*(?:#(\d+))?$', rest)
                     if not m or not m.group(1).rstrip().endswith("?"):
@@ -341,6 +344,14 @@ def emit_fn(out, entry, mode, stats, canary=False):
             raise LostAnchor(f"{entry.id}: sigsubst source {frm!r} not found")
         edits.append((r_[0], r_[1] + 1, to, dict(kind="gen", fn=entry.id, norm=tag)))
         stats.count(tag.lstrip("#"))
+    if entry.selfparam:
+        # N21: Verus has no `mut self` receivers: `fn f(mut self, ..)` => `fn f(mut this: Self, ..)`, `self` => `this` in the body
+        ps = [i for i in sig if popen < i < pclose]
+        if not (len(ps) >= 2 and toks[ps[0]].text == "mut" and toks[ps[1]].text == "self"):
+            raise LostAnchor(f"{entry.id}: receiver is not `mut self`")
+        edits.append((ps[1], ps[1] + 1, f"{entry.selfparam}: Self", dict(kind="gen", fn=entry.id, norm="N21")))
+        entry._rename_self = True
+        stats.count("N21")
     prefix = ""
     for a in entry.attrs:
         prefix += a + "\n"
@@ -715,6 +726,11 @@ def emit_fn(out, entry, mode, stats, canary=False):
             r = b.arg or "__r"
             edits.append((bo + 1, bo + 1, f" let {r} = {{", dict(kind="gen", fn=entry.id)))
             edits.append((last, last, "};\n" + b.text().rstrip("\n") + f"\n{r}\n", vc_origin(b)))
+    if getattr(entry, "_rename_self", False) and mode != "decl":
+        covered = [(lo, hi) for lo, hi, _, _ in edits if hi > lo]
+        for i in range(bo + 1, last):
+            if toks[i].kind == IDENT and toks[i].text == "self" and not any(lo <= i < hi for lo, hi in covered):
+                edits.append((i, i + 1, entry.selfparam, dict(kind="gen", fn=entry.id, norm="N21")))
     # N1 / N8: drop attributes, visibility in front of fn
     start = it.first
     dropped = "".join(t.text for t in toks[start:kw])
